@@ -39,7 +39,12 @@ impl HalfSpace {
     /// and `0.` when a more precise test is needed
     pub fn clip(&self, vertex: DVec3) -> f64 {
         let clip = self.plane.n.dot(vertex) - self.d;
-        if clip.abs() < self.errb {
+        // The rounding errors of `clip` and of the coordinates of `vertex` (computed from other planes) scale
+        // with the magnitude of the coordinates involved, which `n . p` alone does not reflect (e.g. an
+        // axis-aligned plane through a point with a zero in that component, far from the origin).
+        let scale = self.plane.p.abs().max_element().max(vertex.abs().max_element());
+        let errb = self.errb.max(Self::EPSILON * self.plane.n.abs().element_sum() * scale);
+        if clip.abs() < errb {
             0.
         } else {
             clip.signum()
